@@ -65,6 +65,7 @@ impl RangeDownloader {
     /// Create a new range downloader with default configuration
     #[cfg(not(target_arch = "wasm32"))]
     pub fn new() -> Result<Self, RangeError> {
+        crate::transport::ensure_crypto_provider();
         let client = reqwest::Client::builder()
             .timeout(Duration::from_secs(180))
             .build()?;
@@ -98,6 +99,7 @@ impl RangeDownloader {
         chunk_size: usize,
         timeout: Duration,
     ) -> Result<Self, RangeError> {
+        crate::transport::ensure_crypto_provider();
         let client = reqwest::Client::builder().timeout(timeout).build()?;
 
         Ok(Self {
